@@ -40,6 +40,7 @@ type World struct {
 	Gen      int           // incarnation number
 
 	Viol      []Violation
+	TroubleSteps []int
 	Faults    map[string]int
 	Probes    map[string]int
 	Inconcl   string // non-empty: run could not decide (cap hit in fault phase ...)
@@ -82,7 +83,15 @@ func (w *World) Ev(kind string, a int, format string, args ...any) {
 
 func (w *World) Hash() uint64 { return w.hash }
 
-func (w *World) Fault(kind string) { w.Faults[kind]++; w.Budget-- }
+func (w *World) Fault(kind string) { w.Faults[kind]++; w.Budget--; w.Trouble() }
+
+// Trouble notes that something happened which may legitimately fail a connect
+// attempt or lose a connection.
+func (w *World) Trouble() {
+	if n := len(w.TroubleSteps); n == 0 || w.TroubleSteps[n-1] != w.Steps {
+		w.TroubleSteps = append(w.TroubleSteps, w.Steps)
+	}
+}
 func (w *World) Probe(name string) { w.Probes[name]++ }
 
 // Violate records a violation (first per key only).
@@ -155,8 +164,9 @@ type Sim struct {
 	dur        time.Duration
 	ended      bool
 
-	conns   []*Conn
-	Unwind  func() // called when the incarnation is turned into a zombie
+	conns    []*Conn
+	netParks map[string]int
+	Unwind   func() // called when the incarnation is turned into a zombie
 	NoYield bool
 	tickW   int
 }
@@ -194,6 +204,9 @@ func (s *Sim) hook(label string) {
 
 func (s *Sim) parkAt(gid uint64, kind int, label string, op any) {
 	p := &park{g: s.name(gid), kind: kind, label: label, wake: make(chan struct{}), op: op}
+	if kind == pkRead || kind == pkWrite || kind == pkDial {
+		s.netParks[p.g]++
+	}
 	s.parkN++
 	p.seq = s.parkN
 	s.parked = append(s.parked, p)
@@ -266,7 +279,7 @@ func RunBubble(w *World, setup func(s *Sim)) (s *Sim) {
 		}
 	}()
 	synctest.Test(w.T, func(t *testing.T) {
-		s = &Sim{W: w, names: map[uint64]string{}, notify: make(chan struct{}, 1), epoch: time.Now(), tickW: 1, base: w.SimTime}
+		s = &Sim{W: w, names: map[uint64]string{}, notify: make(chan struct{}, 1), epoch: time.Now(), tickW: 1, base: w.SimTime, netParks: map[string]int{}}
 		s.rootG = verifsim.Goid()
 		verifsim.Hook = s.hook
 		defer func() {
@@ -389,6 +402,7 @@ func (s *Sim) forced() bool {
 			}
 			if !c.rdl.IsZero() && !now.Before(c.rdl) && c.avail() == 0 {
 				op.err = c.errTimeout("read")
+				s.W.Trouble()
 				s.W.Ev("read", c.id, "%s conn%d deadline", p.g, c.id)
 				s.W.Probe("read_deadline")
 				s.unpark(p)
